@@ -1122,8 +1122,34 @@ def gen_lp_rows(an: ast.AST) -> str:
             break
         else:
             raise TranslateError("extract_constraints: sense chain has a non-if else")
+    # ---- the rest of the extractor, statement by statement (normalised text) ----
+    def meth(name):
+        f = next((n for n in cls.body if isinstance(n, ast.FunctionDef) and n.name == name), None)
+        if f is None:
+            raise TranslateError(f"LinearProgramExtractor.{name} not found")
+        return f
+    norm = lambda st: " ".join(_u(st).split())
+    nodoc = lambda f: [st for st in f.body if not (isinstance(st, ast.Expr) and isinstance(st.value, ast.Constant))]
+    pre = [norm(st) for st in fn.body if st is not loop and not (isinstance(st, ast.Expr) and isinstance(st.value, ast.Constant))]
+    eb = [norm(st) for st in nodoc(meth("extract_bounds"))]
+    ex = nodoc(meth("extract"))
+    if not (len(ex) == 4 and isinstance(ex[3], ast.Return) and isinstance(ex[3].value, ast.Call)
+            and _u(ex[3].value.func) == "LPData" and not ex[3].value.args):
+        raise TranslateError("LinearProgramExtractor.extract: unexpected shape")
+    exs = [norm(st) for st in ex[:3]] + [f"{k.arg}={' '.join(_u(k.value).split())}" for k in ex[3].value.keywords]
+    eo = nodoc(meth("extract_objective"))
+    guards = [st for st in eo if isinstance(st, ast.If)]
+    if [(_u(g.test), isinstance(g.body[0], ast.Raise) and _u(g.body[0].exc.func)) for g in guards] != \
+            [("problem.objective is None", "NoObjectiveError"), ("not is_linear(problem.objective)", "NonLinearError")]:
+        raise TranslateError("LinearProgramExtractor.extract_objective: guards have changed")
+    eos = [norm(st) for st in eo if not isinstance(st, ast.If)]
+    ls = lambda xs: "[" + ", ".join(json.dumps(x) for x in xs) + "]"
+    extra = (f"def lpExtractConstraintsFrame : List String := {ls(pre)}\n"
+             f"def lpExtractBounds : List String := {ls(eb)}\n"
+             f"def lpExtract : List String := {ls(exs)}\n"
+             f"def lpExtractObjective : List String := {ls(eos)}\n")
     bb = lambda v: "true" if v else "false"
-    return ("structure LPRowCase where\n  sense : String\n  side : String\n  negRow : Bool\n  negRhs : Bool\n  deriving DecidableEq, Repr\n"
+    return (extra + "structure LPRowCase where\n  sense : String\n  side : String\n  negRow : Bool\n  negRhs : Bool\n  deriving DecidableEq, Repr\n"
             "def lpRowCases : List LPRowCase := [" + ", ".join(
                 f"⟨{json.dumps(s_)}, {json.dumps(side)}, {bb(nr)}, {bb(nh)}⟩" for s_, side, nr, nh in cases) + "]\n"
             f"def lpRhsIsNegatedConstant : Bool := {bb(rhs_t.startswith('rhs = -'))}\n")
